@@ -196,9 +196,27 @@ func (g *Gen) useTheory(name string) {
 }
 
 var sortNameRe = regexp.MustCompile(`\bT_[A-Za-z0-9_]+`)
+var opaqueNameRe = regexp.MustCompile(`\bO_[A-Za-z0-9_]+`)
+var coinsNameRe = regexp.MustCompile(`\bCoins\b`)
+var strMacroRe = regexp.MustCompile(`\{str "([^"]*)"\}`)
 
 // ensureSortNames makes sure every struct sort mentioned in text is declared.
 func (g *Gen) ensureSortNames(text string) {
+	for _, m := range opaqueNameRe.FindAllString(text, -1) {
+		g.sorts.opaque[m] = true
+	}
+	if coinsNameRe.MatchString(text) {
+		g.sorts.opaque["Coins"] = true
+	}
+	defer func() {
+		// option sorts are declared after the sorts they wrap
+		for _, m := range optionSortRe.FindAllStringSubmatch(text, -1) {
+			g.sorts.ensureOption(m[1])
+		}
+		for _, m := range optNameRe.FindAllStringSubmatch(text, -1) {
+			g.sorts.ensureOption(m[1])
+		}
+	}()
 	for _, m := range sortNameRe.FindAllString(text, -1) {
 		if _, ok := g.sorts.structs[m]; ok {
 			continue
@@ -274,7 +292,10 @@ func (g *Gen) theoryText() string {
 	}
 	var b strings.Builder
 	for _, n := range order {
-		fmt.Fprintf(&b, "; ---- theory %s\n%s\n", n, g.w.theory[n].Text)
+		fmt.Fprintf(&b, "; ---- theory %s\n%s\n", n, strMacroRe.ReplaceAllStringFunc(g.w.theory[n].Text, func(m string) string {
+			sm := strMacroRe.FindStringSubmatch(m)
+			return strLit(sm[1])
+		}))
 	}
 	return b.String()
 }
